@@ -243,6 +243,13 @@ def run_case(ctx, g, rng):
         with_options(C.from_extended_prefix_map, epm, rng)
         sibling_leg(C.from_extended_prefix_map, epm, "extended_prefix_map", rng)
         call(C.from_extended_prefix_map, [gen.mk_record(api, r) for r in recs])
+        if spec.is_unique(recs) and rng.random() < 0.4:
+            # ... and the Record objects of a converter that is itself the product of merges or of a derivation
+            # (seed C13-V: a per-record cache left stale by the merge and trusted by the constructor)
+            prod, how_ = gen.build(api, recs, ":", rng, rng.choice(["grown-by-merge", "via-derivation", "incremental"]), rejections=False)
+            S.counters[f"wl:records-of-a-product:{how_.split('(')[0]}"] += 1
+            call(C.from_extended_prefix_map, list(prod.records))
+            call(C, list(prod.records))
         # "an iterable of records or dictionaries": also handed over as one-shot iterables
         shape = rng.choice(["generator", "iterator", "map", "generator-of-records", "tuple"])
         S.counters[f"wl:epm-shape:{shape}"] += 1
